@@ -44,7 +44,12 @@ def cases_filter_chain(methods, tier):
         bks = ("upper", "lower", "equality") if method == "cvar-constraint" else ("upper",)
         for bk in bks:
             for variant in ("plain", "unused-filter-first", "second-call", "prior-instance"):
-                for pat in pats:
+                extra = []
+                if method == "cvar-objective" and variant == "plain":
+                    # I = a successful realization whose ranked value is -inf (unboundedly good): outside the tail, weight exactly zero,
+                    # so it must not show in the reported tail mean (0 * inf would be NaN)
+                    extra = ["ooI", "IoC"]
+                for pat in pats + extra:
                     if tier == "quick" and variant != "plain" and pat not in ("oCo", "Ooo", "oDo"):
                         continue
                     yield "%s/%s/%s/%s" % (method, bk, variant, pat), {"method": method, "bounds": bk, "variant": variant, "pattern": pat}
@@ -83,10 +88,12 @@ def scn_filter_chain(T, case, prefix):
             T.under_contract(ch.sh, M, q)
         T.under_contract(ch.sh, H.CHAIN[0], "EnsembleEvaluator.__init__")
         T.under_contract(ch.sh, H.CHAIN[0], "EnsembleEvaluator._init_realization_filters")
-    failed = [c != "o" for c in pat]
+    failed = [c not in "oI" for c in pat]
     onan = np.array([[c == "O"] for c in pat])
     cnan = np.array([[c == "C", c == "D"] for c in pat])
-    tables = {"O": T.real("O", (R, 1), nan=onan), "C": T.real("C", (R, 2), nan=cnan)}
+    okinds = np.array([["-inf" if c == "I" else ("nan" if c == "O" else "fin")] for c in pat], dtype=object)
+    rng_ = {"lo": -1e6, "hi": 1e6} if "I" in pat else {}  # finite values stay inside the double range (nan_to_num maps -inf to the double minimum)
+    tables = {"O": T.real("O", (R, 1), nan=onan, kinds=okinds, **rng_), "C": T.real("C", (R, 2), nan=cnan)}
     options = _options(method)
     x = T.real("x", (2,))
     try:
@@ -119,6 +126,12 @@ def scn_filter_chain(T, case, prefix):
     if m == 0:
         T.prove(prefix + ".chain.no_functions_when_every_realization_failed", res.functions is None)
         return
+    # the per-realization values reported with the result are the evaluator's rows, a failed realization NaN in every column -
+    # whatever a filter did with them on the way
+    ev_o, ev_c = res.evaluations.objectives, res.evaluations.constraints
+    T.prove(prefix + ".chain.reported_evaluations_are_the_evaluator_rows_failed_realizations_all_nan",
+            T.all([(T.same(ev_o[r, :], tables["O"][r, :]) & T.same(ev_c[r, :], tables["C"][r, :])) if not failed[r]
+                   else T.all([T.np.isnan(ev_o[r, 0]), T.np.isnan(ev_c[r, 0]), T.np.isnan(ev_c[r, 1])]) for r in range(R)]))
     T.prove(prefix + ".chain.functions_present", res.functions is not None)
     if res.functions is None:
         return
@@ -148,7 +161,8 @@ def scn_filter_chain(T, case, prefix):
     # the reported value of the filtered function is the mean under the renormalised row (C01's clause, here with a real filter)
     z = [w[r] if not failed[r] else 0.0 * w[r] for r in range(R)]
     tot = T.total(z)
-    want = T.total([(z[r] / tot) * key[r] for r in range(R)])
+    # (a member with weight exactly zero contributes nothing, whatever its value - also an infinite one)
+    want = T.total([T.ite(T.same(z[r], 0.0), 0.0 * tot, (z[r] / tot) * key[r]) if pat[r] == "I" else (z[r] / tot) * key[r] for r in range(R)])
     got = res.functions.objectives[0] if on_objective else res.functions.constraints[0]
     T.prove(prefix + ".chain.value_is_the_mean_under_the_filter_weights", T.implies(tot > 0, T.same(got, want)))
     # ... and of the other function the mean under the configured weights
